@@ -49,6 +49,7 @@ var scanRules = map[string]scanRule{
 	"trivia-siblings":  func(a *scandfa.Analysis) []*report.RuleResult { return []*report.RuleResult{a.TriviaSiblings()} },
 	"newline-symmetry": func(a *scandfa.Analysis) []*report.RuleResult { return []*report.RuleResult{a.NewlineSymmetry()} },
 	"idx-guard":        func(a *scandfa.Analysis) []*report.RuleResult { return []*report.RuleResult{a.IdxGuard()} },
+	"eof-final":        func(a *scandfa.Analysis) []*report.RuleResult { return []*report.RuleResult{a.EofFinal()} },
 	"progress":         func(a *scandfa.Analysis) []*report.RuleResult { return []*report.RuleResult{a.Progress()} },
 }
 
@@ -124,7 +125,7 @@ func init() {
 	properties["SC"] = &Property{ // development aid: every scanner rule at once (not registered in the manifest)
 		Level: "other", Engine: "scandfa",
 		Run: func(c *Ctx) {
-			c.scanRun("token-rules", "newline-action", "newline-siblings", "newline-symmetry", "case-fold", "trivia-stay", "trivia-siblings", "idx-guard", "progress")
+			c.scanRun("token-rules", "newline-action", "newline-siblings", "newline-symmetry", "case-fold", "trivia-stay", "trivia-siblings", "idx-guard", "progress", "eof-final")
 			c.ssaScan("pred-pure", "buf-readonly", "scanner-helpers")
 		},
 	}
@@ -185,11 +186,11 @@ func init() {
 	delete(notApplicable, "C01")
 	properties["C01"] = &Property{
 		Level:     "other",
-		LevelText: "Structural necessary conditions, each decided for all code it applies to: (buf-readonly) no instruction of the parsing packages writes an element of a byte slice that is not local storage, nor hands one to a callee outside the reviewed read-only set - this clause ('the caller's buffer is left unchanged') is decided completely; (cb-guard) every call of the optional error callback is dominated by a nil test; (idx-guard) every index or slice expression on the input buffer, the scanner's call stack and the line table in internal/scanner is implied in range by its dominating conditions plus the scanner invariants (0 <= ts <= te <= len, p < len inside Lex, the dataflow bounds on p-ts and te-ts), by a small linear prover; (progress) the graph of token steps that may consume nothing is acyclic, so the scanner advances by at least one byte per bounded number of steps and Lex returns at most len+1 tokens; (pred-pure) transition conditions do not move the cursor; (nil-in-list, linear) grammar actions cannot put nil into a list or index a possibly-empty list; the parser driver is the stock goyacc driver, whose error recovery shifts `error`, discards a token or aborts (tables-sync/skeleton-sync). Not decided: time proportional to input length beyond the progress argument (per-token work such as NewLines.GetLine's backward scan), Go stack depth on deeply nested input, memory.",
+		LevelText: "Structural necessary conditions, each decided for all code it applies to: (buf-readonly) no instruction of the parsing packages writes an element of a byte slice that is not local storage, nor hands one to a callee outside the reviewed read-only set - this clause ('the caller's buffer is left unchanged') is decided completely; (cb-guard) every call of the optional error callback is dominated by a nil test; (idx-guard) every index or slice expression on the input buffer, the scanner's call stack and the line table in internal/scanner is implied in range by its dominating conditions plus the scanner invariants (0 <= ts <= te <= len, p < len inside Lex, the dataflow bounds on p-ts and te-ts), by a small linear prover; the call-stack invariant 0 <= top <= len(stack) is shown inductive over every write of the two fields and the post-condition of growCallStack (top < len(stack)) is proved from its body, not assumed; (progress) the graph of token steps that may consume nothing is acyclic, so the scanner advances by at least one byte per bounded number of steps and Lex returns at most len+1 tokens; (pred-pure) transition conditions do not move the cursor; (nil-in-list, linear) grammar actions cannot put nil into a list or index a possibly-empty list; (assert-safe) every single-value type assertion an action applies to a right-hand-side value is reached only on paths that have established that the value is non-nil and of the asserted type whenever the productions of that symbol can yield nil or another type; the parser driver is the stock goyacc driver, whose error recovery shifts `error`, discards a token or aborts (tables-sync/skeleton-sync). Not decided: time proportional to input length beyond the progress argument (per-token work such as NewLines.GetLine's backward scan), Go stack depth on deeply nested input, memory.",
 		LevelNote: "Known findings: the new_line action's look-ahead after a CR at end of input (81 generated copies), two scanner stalls (html '<', heredoc '$$'), and the cursor-moving heredoc predicate. Three further index panics found by idx-guard were repaired in /repo.",
 		Technique: "static analysis: SSA effect analysis (buffer writes, guard dominance), linear bound proving over dominating conditions, transition-system reconstruction of the scanner with interval dataflow and replay refinement for progress",
 		Engine:    "scandfa",
-		Explanation: "buf-readonly, cb-guard (SSA); idx-guard, progress on the reconstructed scanner; pred-pure; nil-in-list; tables-sync / skeleton-sync.",
+		Explanation: "buf-readonly, cb-guard (SSA); idx-guard (with the call-stack invariant), progress on the reconstructed scanner; pred-pure; nil-in-list, assert-safe (grammar actions); tables-sync / skeleton-sync.",
 		Assumptions: []string{"PHPMODE: transition predicates run in machines entered after an open tag, so lex.p >= 2 there (look-behind data[p-1], data[p-2])"},
 		TrustedBase: scanTrusted,
 		Floors: []report.Floor{
@@ -199,6 +200,8 @@ func init() {
 			{Rule: "progress", What: "token-steps", Min: 270},
 			{Rule: "pred-pure", What: "predicates", Min: 5},
 			{Rule: "tables-sync", What: "skeleton-funcs", Min: 16},
+			{Rule: "assert-safe", What: "assertions", Min: 230},
+			{Rule: "idx-guard", What: "stack-writes", Min: 10},
 		},
 		Run: func(c *Ctx) {
 			defer c.cleanup()
@@ -209,7 +212,20 @@ func init() {
 				return effects.CbGuard(w)
 			})
 			c.grammarRule("tables-sync", syncRule)
-			c.flows_("nil-in-list")
+			c.flows_("nil-in-list", "assert-safe")
 		},
+	}
+}
+
+func init() {
+	// C06: the end of the input inside an unterminated construct is not accepted silently
+	p := properties["C06"]
+	run := p.Run
+	p.Explanation += " eof-final (scanner transition system): an end-of-input action that accepts everything scanned so far as a token occurs only in ragel's final states (a complete pattern), and where some byte ends the token in that state the end of the input ends it through the same action; every other state falls back to the last complete match, so an unterminated comment, string or cast surfaces as an error token or a syntax error."
+	p.Technique += "; end-of-input actions of the reconstructed scanner automaton"
+	p.Floors = append(p.Floors, report.Floor{Rule: "eof-final", What: "eof-states", Min: 500}, report.Floor{Rule: "eof-final", What: "accepting", Min: 390}, report.Floor{Rule: "eof-final", What: "backtracking", Min: 100})
+	p.Run = func(c *Ctx) {
+		run(c)
+		c.scanRun("eof-final")
 	}
 }
